@@ -191,6 +191,8 @@ func NewSession(cfg ClusterConfig) (*Session, error) {
 	//Check the TLS Config before trying to connect to anything external
 	connCfg, err := connConfig(&s.cfg)
 	if err != nil {
+		// stop the debouncers started above: the caller gets no session it could close
+		s.Close()
 		//TODO: Return a typed error
 		return nil, fmt.Errorf("gocql: unable to create session: %v", err)
 	}
